@@ -3,6 +3,7 @@ package batchsim
 import (
 	"fmt"
 	"runtime"
+	"sort"
 	"sync"
 	"sync/atomic"
 	"testing/synctest"
@@ -48,6 +49,8 @@ type Sim struct {
 	t0      time.Time
 	render  bool
 	trace   []string
+	evbuf   []string
+	runbuf  []string
 	logHash *core.Hash64
 	sigHash *core.Hash64
 	done    atomic.Bool
@@ -81,12 +84,46 @@ func (s *Sim) VT() time.Duration { return time.Since(s.t0) }
 // Step is the number of the scheduler step in progress.
 func (s *Sim) Step() int64 { return s.step.Load() }
 
+// logf records one line of the event log (lock held). Lines of the scheduler
+// itself start a new step. Within a step, the lines of the running task keep
+// their program order; goroutines merely woken at the same virtual instant
+// (two deadlines, two latencies) run concurrently up to their next hook, so
+// the order of their event lines carries no information: they are sorted when
+// the step ends.
 func (s *Sim) logf(format string, a ...any) {
 	line := fmt.Sprintf(format, a...)
+	gid := runtime.VerifGoid()
+	switch {
+	case gid == s.rootGID && len(line) > 0 && line[0] == '[':
+		s.flushEvents()
+		s.emit(line)
+	case gid == s.curGID.Load() || gid == s.rootGID:
+		s.runbuf = append(s.runbuf, line)
+	default:
+		s.evbuf = append(s.evbuf, line)
+	}
+}
+
+func (s *Sim) emit(line string) {
 	s.logHash.Str(line)
 	if s.render {
 		s.trace = append(s.trace, line)
 	}
+}
+
+func (s *Sim) flushEvents() {
+	for _, l := range s.runbuf {
+		s.emit(l)
+	}
+	s.runbuf = s.runbuf[:0]
+	if len(s.evbuf) == 0 {
+		return
+	}
+	sort.Strings(s.evbuf)
+	for _, l := range s.evbuf {
+		s.emit(l)
+	}
+	s.evbuf = s.evbuf[:0]
 }
 
 // Logf records a line of the event log (hash always, text when rendering).
@@ -235,6 +272,9 @@ func (s *Sim) Run(finished func() bool, progress func() int64, horizon time.Dura
 		if core.Progress != nil {
 			core.Progress()
 		}
+		s.mu.Lock()
+		s.flushEvents()
+		s.mu.Unlock()
 		st := s.step.Add(1)
 		s.mu.Lock()
 		var ready []*Task
@@ -359,6 +399,7 @@ func (s *Sim) sleepUntilWake(max time.Duration) {
 func (s *Sim) Finish() {
 	s.done.Store(true)
 	s.mu.Lock()
+	s.flushEvents()
 	var parked []*Task
 	for _, t := range s.tasks {
 		if t.parked {
